@@ -1078,7 +1078,15 @@ pub fn decode_events(w: &World, ex: &Exec) -> Vec<Value> {
                     "xferB": n(e.token_b_transfer_amount), "feeB": n(e.token_b_transfer_fee), "fromOwnerB": e.is_token_b_transfer_from_owner}));
             }
         } else if d == ev::PoolInitialized::DISCRIMINATOR {
-            out.push(json!({"ev": "PoolInitialized"}));
+            if let Ok(e) = ev::PoolInitialized::deserialize(&mut body) {
+                out.push(json!({"ev": "PoolInitialized", "pool": id(&e.whirlpool), "cfg": id(&e.whirlpools_config), "mintA": id(&e.token_mint_a), "mintB": id(&e.token_mint_b),
+                    "spacing": e.tick_spacing, "progA": id(&e.token_program_a), "progB": id(&e.token_program_b), "decimalsA": e.decimals_a, "decimalsB": e.decimals_b,
+                    "sqrtPrice": project::nu(e.initial_sqrt_price)}));
+            }
+        } else if d == ev::PositionOpened::DISCRIMINATOR {
+            if let Ok(e) = ev::PositionOpened::deserialize(&mut body) {
+                out.push(json!({"ev": "PositionOpened", "pool": id(&e.whirlpool), "pos": id(&e.position), "lo": e.tick_lower_index, "up": e.tick_upper_index}));
+            }
         } else {
             out.push(json!({"ev": "other"}));
         }
